@@ -165,13 +165,16 @@ theorem suppAllR_node {g : LGraph} : ∀ {fuel i : Nat}, suppAllR g fuel i = tru
   | 0, _, h => by simp [suppAllR] at h
   | _ + 1, _, h => (suppAllR_succ h).1
 
+theorem genDeps_int (ns : List (String × Impl)) (sc : List String) (n : Int) : genDeps ns sc (.int n) = [] := by
+  simp [genDeps]
+
 /-- the reduction of the fragment through `mapNode`: unique names, the bindings, a stored result -/
 theorem mapNode_red_inv {g : LGraph} {fuel i : Nat} {st st' : St} {r : Impl} {shape : Shape} {e : SExpr}
     {binds : List (String × Nat)} {impl : Strategy} {tag : NameTag} {uo : List String} {rvars : List RVar}
     (hn : g.get i = .indexLambda shape e binds impl tag uo rvars) (hf : RedFacts g shape e binds impl uo rvars)
     (hm : lookupResult st.results i = none) (h : mapNode g (fuel + 1) i st = .ok (r, st')) :
     ∃ uniq stu ns st1 bd, uniqNames rvars uo st = .ok (uniq, stu) ∧
-      recAll (mapNode g fuel) binds stu = .ok (ns, st1) ∧
+      recAll (mapNode g fuel) binds stu = .ok (ns, st1) ∧ bd = [] ∧
       ilStore shape e tag rvars uniq ns bd i st1 = .ok (r, st') := by
   unfold mapNode at h
   simp only [hm, hn] at h
@@ -191,12 +194,28 @@ theorem mapNode_red_inv {g : LGraph} {fuel i : Nat} {st st' : St} {r : Impl} {sh
       have := hf.flags rv (by rw [hr]; simp)
       simp [this.1]
   simp only [hstore, Bool.or_true, if_true] at h
+  -- the dependencies of constant bounds
+  have hbd : ∀ (bd : List String), bd = (rvars.flatMap fun rv =>
+      match boundsOf rv.name e with
+      | some (lo, hi) => genDeps ns [] lo ++ genDeps ns [] hi
+      | none => []) → bd = [] := by
+    intro bd hbd
+    rw [hbd]
+    apply List.flatMap_eq_nil_iff.2
+    intro rv hrv
+    have hmem : rv.name ∈ (splitChain e).1.map (·.2.1) := by rw [← hf.rv]; exact List.mem_map.2 ⟨rv, hrv, rfl⟩
+    obtain ⟨c, hc, hcn⟩ := List.mem_map.1 hmem
+    have hb := boundsOf_chain (splitChain e).2 (splitChain e).1 hf.nodup c hc
+    rw [splitChain_mk, hcn] at hb
+    obtain ⟨l, hh, hl, hhh⟩ := hf.ints c hc
+    rw [hb]
+    simp [hl, hhh, genDeps_int]
   cases himpl : impl with
   | unknown s => exact absurd himpl (hf.impl s)
-  | stored => rw [himpl] at h; exact ⟨uniq, stu, ns, st1, _, hun, hrec, h⟩
-  | default => rw [himpl] at h; exact ⟨uniq, stu, ns, st1, _, hun, hrec, h⟩
-  | inlined => rw [himpl] at h; exact ⟨uniq, stu, ns, st1, _, hun, hrec, h⟩
-  | subst => rw [himpl] at h; exact ⟨uniq, stu, ns, st1, _, hun, hrec, h⟩
+  | stored => rw [himpl] at h; exact ⟨uniq, stu, ns, st1, _, hun, hrec, hbd _ rfl, h⟩
+  | default => rw [himpl] at h; exact ⟨uniq, stu, ns, st1, _, hun, hrec, hbd _ rfl, h⟩
+  | inlined => rw [himpl] at h; exact ⟨uniq, stu, ns, st1, _, hun, hrec, hbd _ rfl, h⟩
+  | subst => rw [himpl] at h; exact ⟨uniq, stu, ns, st1, _, hun, hrec, hbd _ rfl, h⟩
 
 /-! ## the state only grows, and what a node adds is written under new names -/
 
@@ -255,14 +274,19 @@ theorem storeStmt_lhs {id name : String} {inames : List String} {shape : Shape} 
     (storeStmt id name inames shape lets rhs deps).lhs = name :=
   (storeStmt_active (id := id) (name := name) (inames := inames) (lets := lets) (rhs := rhs) (deps := deps) hne).2.1
 
+theorem emitStored_nd_eq {hs : List Hoisted} {bd : List String} {id name : String} {inames : List String}
+    {shape : Shape} {rhs : SExpr} {deps : List String} {st : St} (hnd : shape.length ≠ 0) :
+    emitStored hs bd id name inames shape rhs deps st =
+      st.emit (storeStmt id name inames shape (sortLets (hs.map fun h => (h.temp, substIdx (inameVars inames) h.e)))
+        rhs (deps.filter fun d => !(hs.map (·.id)).contains d)) := by
+  unfold emitStored
+  rw [if_neg (by simpa using hnd)]
+
 theorem emitStored_nd {hs : List Hoisted} {bd : List String} {id name : String} {inames : List String}
     {shape : Shape} {rhs : SExpr} {deps : List String} {st : St} (hnd : shape.length ≠ 0) :
     ∃ deps', emitStored hs bd id name inames shape rhs deps st =
       st.emit (storeStmt id name inames shape (sortLets (hs.map fun h => (h.temp, substIdx (inameVars inames) h.e)))
-        rhs deps') := by
-  unfold emitStored
-  rw [if_neg (by simpa using hnd)]
-  exact ⟨_, rfl⟩
+        rhs deps') := ⟨_, emitStored_nd_eq hnd⟩
 
 /-- the statement of a hoisted bound of a 0-d result -/
 def tempStmt (bd : List String) (h : Hoisted) : KStmt :=
@@ -373,7 +397,7 @@ theorem mapNode_extF {g : LGraph} : ∀ (fuel i : Nat) (st : St) (r : Impl) (st'
             rw [storeStmt_lhs hne]
             exact d1.fresh
         · have hf := redNode_facts hn hred
-          obtain ⟨uniq, stu, ns, st1, bd, hun, hrec, hst⟩ := mapNode_red_inv hn hf hm h
+          obtain ⟨uniq, stu, ns, st1, bd, hun, hrec, _, hst⟩ := mapNode_red_inv hn hf hm h
           obtain ⟨huq, du⟩ := uniqNames_inv hun
           have h0 : ExtF st stu := ExtF.of_same (Ext.of_drewMany du) du.stmts
           have h1 := recAll_extF (mapNode_extF fuel) binds stu ns st1 hrec hkb
@@ -404,7 +428,7 @@ theorem mapNode_extF {g : LGraph} : ∀ (fuel i : Nat) (st : St) (r : Impl) (st'
                 have hmv : c.2.1 ∈ (splitChain e).1.map (·.2.1) := List.mem_map.2 ⟨c, hc, rfl⟩
                 simp only [List.contains_eq_mem, decide_eq_false_iff_not] at this
                 exact absurd hmv this
-          obtain ⟨ls, _, _, rfl, rfl, hd⟩ := hoistBounds_inv ns uniq e _ rvars st3 st3' hs' nb hf.rv hf.flags hch hhb
+          obtain ⟨ls, _, _, rfl, rfl, hd, _⟩ := hoistBounds_inv ns uniq e _ rvars st3 st3' hs' nb hf.rv hf.flags hch hhb
           simp only at hst
           split at hst
           · cases hst
@@ -702,7 +726,7 @@ theorem red_spec (hy : Hyp g inp σ0 inputNames) (hE0 : ∀ x ∈ inputNames, x 
     (hm : lookupResult st.results i = none) (h : mapNode g (fuel + 1) i st = .ok (r, st'))
     (hinv : Inv g inp σ0 inputNames E0 done st) (hal : Alloc σ0 st'.stmts) :
     Inv g inp σ0 inputNames E0 done st' ∧ (i, r) ∈ st'.results := by
-  obtain ⟨uniq, stu, ns, st1, bd, hun, hrec, hst⟩ := mapNode_red_inv hn hf hm h
+  obtain ⟨uniq, stu, ns, st1, bd, hun, hrec, _, hst⟩ := mapNode_red_inv hn hf hm h
   obtain ⟨huq, du⟩ := uniqNames_inv hun
   have hextF := recAll_extF (mapNode_extF fuel) binds stu ns st1 hrec hkb
   have hnames := recAll_names hrec
@@ -711,7 +735,7 @@ theorem red_spec (hy : Hyp g inp σ0 inputNames) (hE0 : ∀ x ∈ inputNames, x 
     exact (lookupNs_none_iff.1 hnone) (by rw [hnames]; exact rankIn_some_mem hx)
   have hUex1 : ∀ p ∈ uniq, p.2 ∈ st1.vng.existing := fun p hp =>
     hextF.ext.ex _ ((du.mem _).2 (Or.inl (List.mem_map.2 ⟨p, hp, rfl⟩)))
-  obtain ⟨name, st2, inames, st3, ls, st3', b', id, st4, deps, hnm, hins, hls, huniq, hd, hgu, hgen, hid, rfl, hst'⟩ :=
+  obtain ⟨name, st2, inames, st3, ls, st3', b', id, st4, deps, hnm, hins, hls, huniq, hd, _, _, hgu, hgen, hid, rfl, hst'⟩ :=
     ilStore_invR (rankIn g binds) (n := shape.length) (splitChain_mk e).symm hf.ne hf.nodup hf.ints hf.rv hf.flags
       (huq.trans hf.uo) hf.body hf.ranks hfound hUex1 hst
   obtain ⟨deps', hem⟩ := emitStored_nd (hs := ls.flatMap RL.hs) (bd := bd) (id := id) (name := name)
@@ -887,7 +911,7 @@ theorem red_spec0 (hy : Hyp g inp σ0 inputNames) (hE0 : ∀ x ∈ inputNames, x
     (hm : lookupResult st.results i = none) (h : mapNode g (fuel + 1) i st = .ok (r, st'))
     (hinv : Inv g inp σ0 inputNames E0 done st) (hal : Alloc σ0 st'.stmts) :
     Inv g inp σ0 inputNames E0 done st' ∧ (i, r) ∈ st'.results := by
-  obtain ⟨uniq, stu, ns, st1, bd, hun, hrec, hst⟩ := mapNode_red_inv hn hf hm h
+  obtain ⟨uniq, stu, ns, st1, bd, hun, hrec, _, hst⟩ := mapNode_red_inv hn hf hm h
   obtain ⟨huq, du⟩ := uniqNames_inv hun
   have hextF := recAll_extF (mapNode_extF fuel) binds stu ns st1 hrec hkb
   have hnames := recAll_names hrec
@@ -896,7 +920,7 @@ theorem red_spec0 (hy : Hyp g inp σ0 inputNames) (hE0 : ∀ x ∈ inputNames, x
     exact (lookupNs_none_iff.1 hnone) (by rw [hnames]; exact rankIn_some_mem hx)
   have hUex1 : ∀ p ∈ uniq, p.2 ∈ st1.vng.existing := fun p hp =>
     hextF.ext.ex _ ((du.mem _).2 (Or.inl (List.mem_map.2 ⟨p, hp, rfl⟩)))
-  obtain ⟨name, st2, inames, st3, ls, st3', b', id, st4, deps, hnm, hins, hls, huniq, hd, hgu, hgen, hid, rfl, hst'⟩ :=
+  obtain ⟨name, st2, inames, st3, ls, st3', b', id, st4, deps, hnm, hins, hls, huniq, hd, _, _, hgu, hgen, hid, rfl, hst'⟩ :=
     ilStore_invR (rankIn g binds) (n := shape.length) (splitChain_mk e).symm hf.ne hf.nodup hf.ints hf.rv hf.flags
       (huq.trans hf.uo) hf.body hf.ranks hfound hUex1 hst
   rw [emitStored_0d h0] at hst'
